@@ -17,7 +17,7 @@ LEVEL_TEXT = ('PARTIAL. Decided statically: (a) the curve coordinate never reach
               'd <- d - digit; end point -> digit B-1 with zero remainder) and the radix B = 2^N built by N '
               'doublings; (c) every image lies in the cube (inductive bound) and is mapped into the box by the exact '
               'affine map; (d) the forward query reads no attribute that an earlier query left behind (the image is '
-              'a function of x and the configuration). Magnitudes of N*m bits are formed from int()-normalised values only. NOT decided: that the node rule enumerates each of the 2^N sub-cells exactly once per '
+              'a function of x and the configuration). Magnitudes of N*m bits are formed from int()-normalised values only. The evolvent keeps no process-wide state. NOT decided: that the node rule enumerates each of the 2^N sub-cells exactly once per '
               'orientation state (a combinatorial fact about an integer recursion).')
 EXPLANATION = ('Taint analysis of the forward query\'s argument; per-level normal forms of the digit extraction on path '
                'summaries (levels unrolled twice); constructor evaluation of the radix; the cube bound and affine map '
